@@ -407,6 +407,40 @@ def run_case(case, ctx):
                         ctx.violation("C13/find/%s/%s/%s" % (sk, "order" if order else "membership", depth_cls), case,
                                       {"q": q, "phase": phase, "want": [n.name for n in exp], "got": [g.name for g in got],
                                        "want_ids": ids(exp)[:6], "got_ids": ids(got)[:6]})
+            # ---------------- related sections: a search of depth one around a section (parent, siblings, children; the
+            # section itself may or may not be listed) - only sections at distance <= 1 of the parent / the section, each
+            # once, every parent / sibling / child that satisfies the filter present
+            dup_ids = {n.id for n in secs if sum(1 for m in secs if m.id == n.id) > 1}
+            for n in secs[:: max(1, len(secs) // 6)]:
+                if n.id in dup_ids or (n.parent is not None and n.parent.id in dup_ids):
+                    continue
+                sibs = (n.parent.children if n.parent is not None else [])
+                must = ([n.parent] if n.parent is not None else []) + [x for x in sibs if x is not n] + list(n.children)
+                allowed = {x.id for x in must} | {n.id}
+                for fk in ("all", "type"):
+                    ty = TYPES[len(n.name) % len(TYPES)]
+                    filt = (lambda x: True) if fk == "all" else (lambda x, ty=ty: x.type == ty)
+                    want = [x for x in must if fk == "all" or x.typ == ty]
+                    try:
+                        got = sec_handle(n).find_related(filtr=filt) if fk == "type" else sec_handle(n).find_related()
+                    except Exception as exc:  # noqa
+                        ctx.violation("C13/find_related/raises", case, {"raised": type(exc).__name__, "phase": phase})
+                        continue
+                    gids = ids(got)
+                    probs = []
+                    if any(gids.count(g) > 1 for g in set(gids) if g not in dup_ids):
+                        probs.append("listed-twice")       # (an id-keeping copy shares its id with the original)
+                    if any(g not in allowed for g in gids):
+                        probs.append("not-related")
+                    if any(x.id not in gids for x in want if x.id not in dup_ids):
+                        probs.append("related-missing")
+                    if fk == "type" and any(g.type != ty for g in got):
+                        probs.append("filter-ignored")
+                    flags.add("find_related")
+                    if probs:
+                        ctx.violation("C13/find_related/" + "+".join(probs), case,
+                                      {"section": n.name, "phase": phase, "got": [g.name for g in got],
+                                       "must": [x.name for x in want], "filter": fk})
             # ---------------- parents
             mult = {}
             for n in secs:
